@@ -5,9 +5,18 @@ Import ListNotations.
 Local Open Scope N_scope.
 
 (* ---- term equality ------------------------------------------------------------------- *)
+Lemma nlist_eqb_refl : forall l, nlist_eqb l l = true.
+Proof. induction l; cbn; rewrite ?N.eqb_refl, ?IHl; reflexivity. Qed.
+
+Lemma nlist_eqb_true : forall a b, nlist_eqb a b = true -> a = b.
+Proof.
+  induction a as [|x a IH]; destruct b as [|y b]; cbn; intros H; try discriminate; try reflexivity.
+  apply andb_true_iff in H. destruct H as [H1 H2]. apply N.eqb_eq in H1. apply IH in H2. congruence.
+Qed.
+
 Lemma nt_eqb_refl : forall a, nt_eqb a a = true.
 Proof.
-  induction a; cbn; rewrite ?N.eqb_refl, ?IHa, ?IHa1, ?IHa2, ?IHa3; reflexivity.
+  induction a; cbn; rewrite ?N.eqb_refl, ?nlist_eqb_refl, ?IHa, ?IHa1, ?IHa2, ?IHa3; reflexivity.
 Qed.
 
 Ltac split_andb H :=
@@ -23,6 +32,7 @@ Proof.
            end;
     repeat match goal with
            | H : (_ =? _) = true |- _ => apply N.eqb_eq in H
+           | H : nlist_eqb _ _ = true |- _ => apply nlist_eqb_true in H
            | IH : forall b, nt_eqb ?x b = true -> ?x = b, H : nt_eqb ?x _ = true |- _ => apply IH in H
            end; subst; reflexivity.
 Qed.
@@ -56,12 +66,12 @@ Qed.
 Lemma handle_payload_sound : forall p pl rs id k,
   handle_payload p pl rs = inl (id, k) ->
   k = NPub id /\
-  (exists r ext, pl = NPayload (NPub id) (NSig id (NCat PREFIX rs) r) ext) /\
+  (exists kb r ext, pl = NPayload kb (NSig id (NCat PREFIX rs) r) ext /\ unmarshal_key kb = Some id) /\
   (p_check p = true -> p_expect p = Some id).
 Proof.
   intros p pl rs id k H. unfold handle_payload in H.
   destruct pl; try discriminate.
-  destruct pl1; cbn [id_of_key] in H; try discriminate.
+  destruct (unmarshal_key pl1) as [k0|] eqn:Eu; [|discriminate].
   destruct (p_check p && negb match p_expect p with Some x => x =? k0 | None => false end)%bool eqn:Ec;
     [discriminate|].
   destruct (sig_verify (NPub k0) (NCat PREFIX rs) pl2) eqn:Ev; [|discriminate].
@@ -77,7 +87,7 @@ Lemma handle_payload_bad_sig : forall p k sg ext rs,
   sig_verify (NPub k) (NCat PREFIX rs) sg = false ->
   exists c, handle_payload p (NPayload (NPub k) sg ext) rs = inr c.
 Proof.
-  intros p k sg ext rs H. unfold handle_payload. cbn [id_of_key].
+  intros p k sg ext rs H. unfold handle_payload. cbn [unmarshal_key].
   destruct (p_check p && _)%bool; [eauto|]. rewrite H. eauto.
 Qed.
 
@@ -85,9 +95,10 @@ Qed.
 (* initiator: any queue of incoming messages (the adversary's choice) *)
 Lemma init_finish_done : forall p st q id k st' o,
   init_finish p st q = (Done id k st', o) ->
-  exists re cs cp rest rs r ext st2,
+  exists re cs cp rest rs r ext st2 kb,
     q = [re; cs; cp] :: rest /\
-    read_m2 p st [re; cs; cp] = Some (st2, rs, NPayload (NPub id) (NSig id (NCat PREFIX rs) r) ext) /\
+    read_m2 p st [re; cs; cp] = Some (st2, rs, NPayload kb (NSig id (NCat PREFIX rs) r) ext) /\
+    unmarshal_key kb = Some id /\
     k = NPub id /\ hs_rs st' = Some rs /\ hs_re st' = re /\
     (p_check p = true -> p_expect p = Some id) /\
     ck (hs_sym st') =
@@ -100,14 +111,14 @@ Proof.
   destruct (handle_payload p pl rs) as [[id' k']|c] eqn:Eh; [|discriminate].
   destruct (faulty p FReceived || faulty p FSend || faulty p (FWrite 1))%bool; [discriminate|].
   destruct (write_m3 p st2) as [st3 m3] eqn:Ew. inversion H; subst. clear H.
-  apply handle_payload_sound in Eh. destruct Eh as [-> [[r [ext ->]] Hc]].
+  apply handle_payload_sound in Eh. destruct Eh as [-> [[kb [r [ext [-> Hkb]]]] Hc]].
   unfold read_m2 in Er.
   destruct y as [|re [|cs [|cp [|]]]]; try discriminate.
   destruct (decrypt_and_hash _ cs) as [[s3 rs']|] eqn:E1; [|discriminate].
   destruct (decrypt_and_hash _ cp) as [[s5 pl']|] eqn:E2; [|discriminate].
   inversion Er; subst. clear Er.
   exists re, cs, cp, rest, rs, r, ext.
-  eexists. split; [reflexivity|]. split.
+  eexists. exists kb. split; [reflexivity|]. split; [|split; [exact Hkb|]].
   - unfold read_m2. rewrite E1, E2. reflexivity.
   - unfold write_m3 in Ew. cbn [hs_sym hs_re hs_rs] in Ew.
     (* the chaining key is untouched by encrypt/decrypt-and-hash *)
@@ -130,9 +141,10 @@ Qed.
 
 Lemma resp_finish_done : forall p st q id k st',
   resp_finish p st q = Done id k st' ->
-  exists cs cp rest rs r ext,
+  exists cs cp rest rs r ext kb,
     q = [cs; cp] :: rest /\
-    read_m3 p st [cs; cp] = Some (st', rs, NPayload (NPub id) (NSig id (NCat PREFIX rs) r) ext) /\
+    read_m3 p st [cs; cp] = Some (st', rs, NPayload kb (NSig id (NCat PREFIX rs) r) ext) /\
+    unmarshal_key kb = Some id /\
     k = NPub id /\ hs_rs st' = Some rs /\
     (p_check p = true -> p_expect p = Some id) /\
     ck (hs_sym st') = NKdf (ck (hs_sym st)) (dh (p_e p) rs) 1.
@@ -144,13 +156,13 @@ Proof.
   destruct (handle_payload p pl rs) as [[id' k']|c] eqn:Eh; [|discriminate].
   destruct (faulty p FReceived); [discriminate|].
   inversion H; subst. clear H.
-  apply handle_payload_sound in Eh. destruct Eh as [-> [[r [ext ->]] Hc]].
+  apply handle_payload_sound in Eh. destruct Eh as [-> [[kb [r [ext [-> Hkb]]]] Hc]].
   unfold read_m3 in Er.
   destruct z as [|cs [|cp [|]]]; try discriminate.
   destruct (decrypt_and_hash (hs_sym st) cs) as [[s1 rs']|] eqn:E1; [|discriminate].
   destruct (decrypt_and_hash _ cp) as [[s3 pl']|] eqn:E2; [|discriminate].
   inversion Er; subst. clear Er.
-  exists cs, cp, rest, rs, r, ext. split; [reflexivity|]. split.
+  exists cs, cp, rest, rs, r, ext, kb. split; [reflexivity|]. split; [|split; [exact Hkb|]].
   - unfold read_m3. rewrite E1, E2. reflexivity.
   - cbn [hs_rs hs_sym]. repeat split; try reflexivity; try assumption.
     assert (Hck_d : forall s c s' x, decrypt_and_hash s c = Some (s', x) -> ck s' = ck s).
@@ -234,11 +246,11 @@ Proof.
   intros sc n n' rI rR H. unfold run_session in H. apply run_pair_done in H. destruct H as [HI HR].
   split; intros id k st x Hd Hn.
   - destruct (HI _ _ _ Hd) as [_ [stI [q [o Hf]]]]. apply init_finish_done in Hf.
-    destruct Hf as [re [cs [cp [rest [rs [r [ext [st2 [_ [_ [_ [_ [_ [Hc _]]]]]]]]]]]]]].
+    destruct Hf as [re [cs [cp [rest [rs [r [ext [st2 [kb [_ [_ [_ [_ [_ [_ [Hc _]]]]]]]]]]]]]]]].
     apply (names_peer_check true) in Hn. destruct Hn as [Hk He].
     cbn [party_of p_check p_expect] in Hc. rewrite He in Hc. specialize (Hc Hk). inversion Hc. reflexivity.
   - destruct (HR _ _ _ Hd) as [_ [_ [_ [stR [q Hf]]]]]. apply resp_finish_done in Hf.
-    destruct Hf as [cs [cp [rest [rs [r [ext [_ [_ [_ [_ [Hc _]]]]]]]]]]].
+    destruct Hf as [cs [cp [rest [rs [r [ext [kb [_ [_ [_ [_ [_ [Hc _]]]]]]]]]]]]].
     apply (names_peer_check false) in Hn. destruct Hn as [Hk He].
     cbn [party_of p_check p_expect] in Hc. rewrite He in Hc. specialize (Hc Hk). inversion Hc. reflexivity.
 Qed.
